@@ -509,7 +509,7 @@ func rwGenCase(t *rapid.T, faults bool) rwCase {
 	}
 	// one case in four: several proxy instances share the streams (no stream failures in those: C04's fault model is
 	// about the cluster-facing streams of one instance)
-	if !faults && rapid.IntRange(0, 3).Draw(t, "multiNode") == 0 {
+	if rapid.IntRange(0, 3).Draw(t, "multiNode") == 0 {
 		c.Nodes = rapid.SampledFrom([]int{2, 2, 3}).Draw(t, "nodes")
 		for i := 0; i < c.NS; i++ {
 			c.SrcNode = append(c.SrcNode, rapid.IntRange(0, c.Nodes-1).Draw(t, "srcNode"))
@@ -597,7 +597,9 @@ func rwGenFault(t *rapid.T, c rwCase) rwOp {
 		n = c.NT
 	}
 	op := rwOp{K: "break", Side: side, I: rapid.IntRange(0, n-1).Draw(t, "bi"), How: rapid.SampledFrom([]string{"recvErr", "recvEOF", "sendErr", "cancel", "cancel"}).Draw(t, "how")}
-	if side == "T" && rapid.IntRange(0, 3).Draw(t, "window") == 0 {
+	// (not with several instances: the intra-proxy receiver retries a send into a closed-but-registered channel in a
+	// tight loop without sleeping, which never lets virtual time advance while the harness holds the sender parked)
+	if side == "T" && c.Nodes <= 1 && rapid.IntRange(0, 3).Draw(t, "window") == 0 {
 		op.Window = true
 	}
 	return op
